@@ -367,7 +367,11 @@ func c18Case(c *core.Ctx, id string) {
 		}
 		// the second public channel: run(callback=...)
 		if b == nb-1 {
-			if probs, kinds := c18Callback(s.Root, target, e.P.Args, o.Failing, e.S); len(probs) > 0 {
+			cbAlways := r.IntN(2) == 0 // every body runs again and its output lines travel through the callback channel
+			if cbAlways {
+				c.Count("callback_runs_with_always (output lines compared)", 1)
+			}
+			if probs, kinds := c18Callback(s.Root, target, e.P.Args, o.Failing, e.S, cbAlways, want); len(probs) > 0 {
 				c.Violation(id, "", "callback-event-protocol-violated", map[string]any{"problems": probs, "variant": variant, "target": target, "failing": o.Failing, "event_kinds": kinds})
 				return
 			}
@@ -400,9 +404,10 @@ func renderEvents(evs []pj.Event) []string {
 
 // c18Callback builds target through the run() builtin with a callback and checks the grammar
 // on the "kind" field of the event structs.
-func c18Callback(root, target string, args []string, failing []string, s *pj.Session) ([]string, []string) {
+func c18Callback(root, target string, args []string, failing []string, s *pj.Session, always bool, want map[string][]string) ([]string, []string) {
 	s.SetFailing(failing)
-	proj, err := dawn.Load(root, &dawn.LoadOptions{Args: args, Builtins: starlark.StringDict{"v": pj.Module()}})
+	mainRec := &pj.Recorder{} // the project's own Events sink, next to the callback channel
+	proj, err := dawn.Load(root, &dawn.LoadOptions{Args: args, Events: mainRec, Builtins: starlark.StringDict{"v": pj.Module()}})
 	if err != nil {
 		return []string{"load: " + err.Error()}, nil
 	}
@@ -432,7 +437,11 @@ func c18Callback(root, target string, args []string, failing []string, s *pj.Ses
 		mu.Unlock()
 		return starlark.None, nil
 	})
-	_, runErr := starlark.Call(thread, globals["run"], starlark.Tuple{starlark.String(target)}, []starlark.Tuple{{starlark.String("callback"), cb}})
+	kwargs := []starlark.Tuple{{starlark.String("callback"), cb}}
+	if always {
+		kwargs = append(kwargs, starlark.Tuple{starlark.String("always"), starlark.True})
+	}
+	_, runErr := starlark.Call(thread, globals["run"], starlark.Tuple{starlark.String(target)}, kwargs)
 	es := ""
 	if runErr != nil {
 		es = runErr.Error()
@@ -450,7 +459,18 @@ func c18Callback(root, target string, args []string, failing []string, s *pj.Ses
 			rd = e.Err
 		}
 	}
-	probs := protocolProblems(evs, target, rd, nil, nil, false)
+	probs := protocolProblems(evs, target, rd, want, nil, always)
+	// while a callback carries a run, the project's own sink must not receive pieces of it: an output line there has no
+	// evaluating/completion around it
+	for _, e := range mainRec.Snapshot() {
+		switch e.Kind {
+		case "Print", "TargetEvaluating", "TargetSucceeded", "TargetFailed", "TargetUpToDate", "RunDone":
+			probs = append(probs, fmt.Sprintf("%s %s %q delivered to the project's Events sink during a run whose events go to the callback", e.Kind, e.Label, e.Line))
+		}
+		if len(probs) > 12 {
+			break
+		}
+	}
 	if (rd == "") != (es == "") {
 		probs = append(probs, fmt.Sprintf("RunDone err=%q but run() returned %q", rd, es))
 	}
